@@ -418,7 +418,10 @@ Varable failures: {var_failed}
         outf = PseudoNetCDFFile.renameVariables(
             self, inplace=inplace, copyall=copyall, **newkeys)
         newlist = [newkeys.get(vk, vk) for vk in oldlist]
-        newlist = [vk for vk in newlist if vk in outf.variables]
+        # VAR-LIST is fixed width: a longer name cannot be listed and
+        # must not shift the names that follow
+        newlist = [vk for vk in newlist
+                   if vk in outf.variables and len(vk) <= 16]
         setattr(outf, 'VAR-LIST', ''.join([vk.ljust(16) for vk in newlist]))
         outf.updatemeta()
         return outf
